@@ -367,7 +367,46 @@ inductive Pg where
   /-- `(R orderby .k) >> .v`?  no: `(R orderby .k) >> .k` (tied keys: the key sequence is determined), or with the
   tie-free key `(k: .k, i: .i)` the rows themselves: mode 0 / 1 -/
   | orderbyAttr (rows : List (Int × Int)) (mode : Nat)
+  /-- numeric reducers over a set of 12–20 numbers `u / scale` (scale 1, 2, 4: exactly representable):
+  op 0 `S sum .`, 1 `S mean .`, 2 `S median .`, 3 `S max .`, 4 `S min .`, 5 `S count` -/
+  | numred (units : List Int) (scale : Nat) (op : Nat)
+  /-- the same reducers over an attribute of a relation (values repeat): `R sum .v`, … -/
+  | numrel (rows : List (Int × Int)) (op : Nat)
+  /-- an OUTER set (or dictionary, modes ≥ 5) of ≥ 12 members that holds the same inner value in several spellings.
+  mode 0 `{o1} count`, 1 `{o1} = {o2}`, 2 `{o1} & {o2}`, 3 `probe <: {o1}`, 4 `{o1}`;
+  dictionaries `D1 = {k: v, …}` over `o1`, `D2` over `o2`: 5 `D1 = D2`, 6 `D1(probe)`, 7 `(D1 | D2) count`, 8 `D1` -/
+  | dup (o1 o2 : List ((String × Rep) × Int)) (probe : String × Rep) (mode : Nat)
   deriving Inhabited
+
+/-- the decimal text of `p / q` when it terminates (`q ∣ 10^9` after reduction); what Go's shortest float formatting
+prints for such a value of moderate size -/
+def decStr (p : Int) (q : Nat) : String :=
+  let g := Nat.gcd p.natAbs q
+  let q' := if g == 0 then 1 else q / g
+  let p' : Int := if g == 0 then 0 else p / (g : Int)
+  let sc := 1000000000 / q'
+  let v : Int := p' * (sc : Int)
+  let a := v.natAbs
+  let ip := a / 1000000000
+  let fp := a % 1000000000
+  let digits := (toString (1000000000 + fp)).toList.drop 1
+  let frac := String.ofList (digits.reverse.dropWhile (· == '0')).reverse
+  (if v < 0 then "-" else "") ++ toString ip ++ (if fp == 0 then "" else "." ++ frac)
+
+def terminates (p : Int) (q : Nat) : Bool :=
+  let g := Nat.gcd p.natAbs q
+  let q' := if g == 0 then 1 else q / g
+  q' != 0 && 1000000000 % q' == 0
+
+def decSrc (p : Int) (q : Nat) : String := if p < 0 then "(" ++ decStr p q ++ ")" else decStr p q
+
+def redName (op : Nat) : String :=
+  match op with
+  | 0 => "sum" | 1 => "mean" | 2 => "median" | 3 => "max" | _ => "min"
+
+def dupSetSrc (o : List ((String × Rep) × Int)) : String := "{" ++ ", ".intercalate (o.map (·.1.1)) ++ "}"
+def dupDictSrc (o : List ((String × Rep) × Int)) : String :=
+  "{" ++ ", ".intercalate (o.map (fun e => e.1.1 ++ ": " ++ Lit.numSrc e.2)) ++ "}"
 
 def Pg.src : Pg → String
   | .setpat lits mode s =>
@@ -387,6 +426,22 @@ def Pg.src : Pg → String
   | .nest rows mode => "(" ++ kvSrc rows ++ (if mode == 0 then " nest |v, i|g)" else " nest |i|g)")
   | .orderbyAttr rows mode =>
     if mode == 0 then "((" ++ kvSrc rows ++ " orderby .k) >> .k)" else "(" ++ kvSrc rows ++ " orderby (k: .k, i: .i))"
+  | .numred units scale op =>
+    let S := "{" ++ ", ".intercalate (units.map (fun u => decSrc u scale)) ++ "}"
+    if op == 5 then "(" ++ S ++ " count)" else "(" ++ S ++ " " ++ redName op ++ " .)"
+  | .numrel rows op =>
+    if op == 5 then "(" ++ kvSrc rows ++ " count)" else "(" ++ kvSrc rows ++ " " ++ redName op ++ " .v)"
+  | .dup o1 o2 probe mode =>
+    match mode with
+    | 0 => "(" ++ dupSetSrc o1 ++ " count)"
+    | 1 => "(" ++ dupSetSrc o1 ++ " = " ++ dupSetSrc o2 ++ ")"
+    | 2 => "(" ++ dupSetSrc o1 ++ " & " ++ dupSetSrc o2 ++ ")"
+    | 3 => "(" ++ probe.1 ++ " <: " ++ dupSetSrc o1 ++ ")"
+    | 4 => dupSetSrc o1
+    | 5 => "(" ++ dupDictSrc o1 ++ " = " ++ dupDictSrc o2 ++ ")"
+    | 6 => "(" ++ dupDictSrc o1 ++ "(" ++ probe.1 ++ "))"
+    | 7 => "((" ++ dupDictSrc o1 ++ " | " ++ dupDictSrc o2 ++ ") count)"
+    | _ => dupDictSrc o1
 
 namespace Impl
 
@@ -451,6 +506,27 @@ def evalPg : Pg → Res
     let rs := kvRows rows
     if mode == 0 then .ok (C06.Impl.mkArray 0 (((C06.Impl.orderBy (attrOf "k") rs).map (attrOf "k")).map some))
     else .ok (C06.Impl.mkArray 0 ((C06.Impl.orderBy (fun r => .gtuple [("k", attrOf "k" r), ("i", attrOf "i" r)]) rs).map some))
+  | .numred _ _ _ => .err          -- rational results: see `obsPg`
+  | .numrel _ _ => .err
+  | .dup o1 o2 probe mode =>
+    let boolRep (b : Bool) : Rep := if b then .true_ else .empty
+    let s1 := C06.Impl.build (o1.map (·.1.2))
+    let s2 := C06.Impl.build (o2.map (·.1.2))
+    let ents (o : List ((String × Rep) × Int)) : List Rep := o.map (fun e => .entryT e.1.2 (.num e.2))
+    let d1 := C06.Impl.build (ents o1)
+    let d2 := C06.Impl.build (ents o2)
+    match mode with
+    | 0 => .ok (.num (members s1).length)
+    | 1 => .ok (boolRep (C06.Impl.equal s1 s2))
+    | 2 => .ok (C06.Impl.build ((members s1).filter (fun x => memberOf x s2)))
+    | 3 => .ok (boolRep (memberOf probe.2 s1))
+    | 4 => .ok s1
+    | 5 => .ok (boolRep (C06.Impl.equal d1 d2))
+    | 6 => match o1.find? (fun e => C06.Impl.equal e.1.2 probe.2) with
+      | some e => .ok (.num e.2)
+      | none => .err
+    | 7 => .ok (.num (members (C06.Impl.build (ents o1 ++ ents o2))).length)
+    | _ => .ok d1
   | .nest rows mode =>
     let rs := kvRows rows
     if rs.isEmpty then .ok .empty
@@ -478,6 +554,31 @@ def superimposedL (ms : List Rep) : Bool :=
 def obs : Res → String
   | .ok r => (den r).canon ++ "\n" ++ repr r ++ "\n" ++ outText r
   | .err => "error"
+
+/-- the exact value `p / q` of a numeric reducer over the multiset `us` of units (`u / scale` each) -/
+def reduceExact (us : List Int) (scale : Nat) (op : Nat) : Option (Int × Nat) :=
+  let n := us.length
+  let sorted := isort (fun (a b : Int) => decide (a < b)) us
+  match op with
+  | 0 => some (us.foldl (· + ·) 0, scale)
+  | 1 => if n == 0 then none else some (us.foldl (· + ·) 0, scale * n)
+  | 2 =>
+    if n == 0 then none
+    else if n % 2 == 1 then some (sorted.getD (n / 2) 0, scale)
+    else some (sorted.getD (n / 2 - 1) 0 + sorted.getD (n / 2) 0, scale * 2)
+  | 3 => (sorted.getLast?).map (fun u => (u, scale))
+  | 4 => (sorted.head?).map (fun u => (u, scale))
+  | _ => some ((n : Int), 1)
+
+def numObs : Option (Int × Nat) → String
+  | some (p, q) => let t := decStr p q; t ++ "\n" ++ t ++ "\n" ++ t ++ "\n"
+  | none => "error"
+
+/-- observables of a `Pg` program; numeric reducers are computed exactly (rationals) and printed as decimals -/
+def obsPg : Pg → String
+  | .numred units scale op => numObs (reduceExact units scale op)
+  | .numrel rows op => numObs (reduceExact (if op == 5 then rows.map (fun _ => (0 : Int)) else rows.map (·.2)) 1 op)
+  | p => obs (evalPg p)
 
 end Impl
 
